@@ -437,6 +437,9 @@ class CallMixin:
                     return f'{pre}_clear({addr(obj)})'
                 if m in ('push_back', 'emplace_back') and len(args) == 1:
                     return f'{pre}_push_back{"_reserved" if reserved else ""}({addr(obj)}, {self.value_of(args[0])})'
+                if m == 'emplace_back' and len(args) == 2 and self.family(et) == 'pair':
+                    # vector<pair<A, B>>::emplace_back(a, b): the pair is built from the two arguments
+                    return f'{pre}_push_back{"_reserved" if reserved else ""}({addr(obj)}, (({self.ctype(et)}){{{self.value_of(args[0])}, {self.value_of(args[1])}}}))'
                 if m == 'pop_back':
                     return f'{pre}_pop_back({addr(obj)})'
                 if m == 'pop_front':
